@@ -89,7 +89,7 @@ Init ==
 -----------------------------------------------------------------------------
 CfgOut == [reclaim |-> cfg.reclaim, gossipDead |-> cfg.gossipDead, allowOn |-> cfg.allowOn,
            aliveDelegate |-> cfg.aliveDelegate, mult |-> cfg.mult, maxMult |-> cfg.maxMult,
-           interval |-> cfg.interval, fillers |-> Cardinality(Fillers)]
+           interval |-> cfg.interval, fillers |-> Cardinality(Fillers), vetoMeta |-> VetoMeta]
 
 \* the whole view before the step: what a replayer needs to rebuild the situation
 World == [rec |-> rec, timer |-> timer, stale |-> stale, selfInc |-> selfInc, leave |-> leave,
